@@ -2476,6 +2476,73 @@ Section Cover.
     - cbn [r1 mvf]. apply mvf_aset_lt; [exact 0%N | apply I].
   Qed.
 
+  (* ------------------------------------------------------------------ 2b: a directory moved out of the tree.
+     Everything under the root is still covered; the kernel watches of the departed directories and their entries
+     in both maps stay behind (finding F10), so WInv - no stale watch - does not hold afterwards. *)
+  Theorem step_rename_dir_out w k r p q w' ep : RSync w k r -> npath p -> npath q -> c_recursive C = true ->
+    N.land IN_MOVED_FROM (c_mask C) <> 0%N -> N.land IN_MOVED_TO (c_mask C) <> 0%N ->
+    apply_op w (Rename p q) = Some w' -> flookup p (w_fs w) = Some ep -> f_dir ep = true ->
+    scope p -> p <> root -> ~ scope q ->
+    let k1 := kernel_op k (w_fs w) (Rename p q) in
+    exists r' k' evs, read_batch C (w_fs w') (r, drainq k1, []) (k_queue k1) = Done (r', k', evs) /\
+      wf_fs w' /\ isdir_in root (w_fs w') /\ Cover (w_fs w') k' r' /\ k_queue k' = [] /\
+      wfp r' = wfp r /\ pfw r' = pfw r /\ k_watches k' = k_watches k.
+  Proof.
+    intros S Np Nq Hrec Hmf Hmt Ha Elp Dep Sp Hpr Sq k1. destruct S as [W Hr I Cv Hq].
+    assert (W' : wf_fs w') by exact (wf_apply_op w (Rename p q) w' W (conj Np Nq) Ha).
+    destruct (rename_inv w p q w' W Np Nq Ha) as (ep' & t1 & Elp' & Hne & Hupq & Edq & -> & Hbelow & Hq1).
+    assert (ep' = ep) by congruence. subst ep'. destruct (flookup_some _ _ _ Elp) as [Hep Eep].
+    destruct Hr as (er & Her & Eer & Der).
+    assert (Hrootq : under q root = false) by (rewrite <- Eer; now apply Hbelow).
+    assert (Urp : under root p = true).
+    { unfold scope in Sp. rewrite Hrec in Sp. destruct Sp as [Sp'|Sp']; [contradiction | exact Sp']. }
+    assert (Hqr : q <> root) by (intros E; apply Sq; unfold scope; rewrite Hrec; now left).
+    assert (Fp : fisdir p (w_fs w) = true) by (unfold fisdir; now rewrite Elp).
+    destruct (scope_parent p Np Sp Hpr) as [Sdp _].
+    assert (Hdp : isdir_in (dirname p) (w_fs w)).
+    { rewrite <- Eep. apply (wf_parent w W ep er Hep Her). now rewrite Eep, Eer. }
+    destruct Hdp as (dp & Hdp & Edp & Ddp). rewrite <- Edp in Sdp.
+    destruct (Cv dp Hdp Ddp Sdp) as (kwp & Cwp & Cpp & Cfp).
+    assert (Ip : ino_of (w_fs w) (dirname p) = f_ino dp) by (unfold ino_of; rewrite <- Edp; now rewrite (flookup_in _ dp (wf_paths w W) Hdp)).
+    assert (Sdq : ~ scope (dirname q)).
+    { intros H. apply Sq. destruct (npath_parts q Nq) as (Eq & _). rewrite Eq. now apply scope_child. }
+    assert (Uq : watch_of_ino k (ino_of (w_fs w) q) = None) by now apply (ino_unwatched w k r q W I).
+    subst k1. cbn [kernel_op w_fs].
+    set (k2 := knotify (knotify _ _ _ _ _ _) _ _ _ _ _).
+    assert (Ek2 : k2 = {| k_watches := k_watches k; k_next_wd := k_next_wd k;
+              k_queue := [mv_from kwp true (k_next_cookie k) (basename p)]; k_next_cookie := k_next_cookie k + 1 |}).
+    { unfold k2. rewrite rename_kernel; [|exact Hq|].
+      - now rewrite Ip, Cwp, (ino_unwatched w k r (dirname q) W I Sdq), Fp.
+      - intros kw Hk. rewrite (wi_mask _ _ _ I kw Hk). now split. }
+    assert (Ekg : (if fisdir q (w_fs w) then kgone k2 (ino_of (w_fs w) q) true else k2) = k2).
+    { destruct (fisdir q (w_fs w)); [|reflexivity]. unfold kgone. rewrite (watch_of_ino_ext k k2) by (rewrite Ek2; reflexivity).
+      now rewrite Uq. }
+    rewrite Ekg, Ek2. cbn [k_queue read_batch].
+    destruct (npath_parts p Np) as (Ep & Gdp & Vbp & Jp).
+    assert (SPp : src_path_of (dirname p) (basename p) = p) by (unfold src_path_of; destruct (basename p); [discriminate Vbp | exact Jp]).
+    rewrite (read_one_from _ _ _ _ _ (dirname p)); try (vm_compute; reflexivity); [|cbn [mv_from kev k_wd]; now rewrite Cpp, Edp].
+    eexists _, _, _. split; [reflexivity|]. cbn [wfp pfw drainq kset_queue k_queue k_watches w_fs].
+    split; [exact W'|].
+    assert (Hkeep_root : ren p q er = er).
+    { unfold ren. rewrite Eer. destruct (beqb root p) eqn:E; [apply beqb_eq in E; congruence|]. now rewrite (under_antisym _ _ Urp). }
+    assert (Hsub : forall e, In e t1 -> In e (w_fs w)).
+    { intros e He. destruct Hq1 as [[_ ->]|(v & _ & -> & _)]; [assumption | now apply fremove_in in He]. }
+    split; [|split; [|repeat split; reflexivity]].
+    - exists er. split; [|auto]. rewrite frename_map, <- Hkeep_root. apply in_map.
+      destruct Hq1 as [[_ ->]|(v & _ & -> & _)]; [assumption | apply fremove_in; split; [assumption | congruence]].
+    - intros e' He' De' Se'. rewrite frename_map in He'. apply in_map_iff in He' as (e & <- & He0). assert (He := Hsub e He0).
+      rewrite ren_dir in De'. rewrite ren_path in Se'.
+      assert (Hnot : forall s, ~ scope (q ++ sep :: s)).
+      { intros s H. unfold scope in H, Sq. rewrite Hrec in *. destruct H as [H|H]; [rewrite <- H, under_app in Hrootq; discriminate|].
+        destruct (under_cmp root q _ H (under_app q s)) as [E|[E|E]]; [apply Sq; now left | apply Sq; now right | congruence]. }
+      destruct (bytes_eq_dec (f_path e) p) as [E|E]; [rewrite E, rk_self in Se'; contradiction|].
+      destruct (under p (f_path e)) eqn:Eu.
+      { apply under_spec in Eu as [s Es]. rewrite Es, rk_under in Se'. now apply Hnot in Se'. }
+      rewrite rk_other in Se' by assumption.
+      assert (Hr' : ren p q e = e) by (unfold ren; apply beqb_neq in E; now rewrite E, Eu). rewrite Hr'.
+      destruct (Cv e He De' Se') as (kw & C1 & C2 & C3). exists kw. split; [|split]; assumption.
+  Qed.
+
   (* ------------------------------------------------------------------ 2b/2c: one step, and sequential histories *)
   Definition mask_ok : Prop :=
     N.land IN_CREATE (c_mask C) <> 0%N /\ N.land IN_MOVED_FROM (c_mask C) <> 0%N /\ N.land IN_MOVED_TO (c_mask C) <> 0%N.
